@@ -45,10 +45,13 @@ PROPERTIES = {
     "C09": {
         "title": "operations complete, no lock left held",
         "jobs": [{"bin": "h_tree", "args": ["locks", "--oracle", "lock"], "shards": 16},
-                 {"bin": "h_tree", "args": ["struct", "--oracle", "lock"], "shards": 4}],
+                 {"bin": "h_tree", "args": ["struct", "--oracle", "lock"], "shards": 4},
+                 {"bin": "h_tree", "args": ["iscanc", "--oracle", "lock", "--only", "/iscan(-inf,+inf,nv)|"], "shards": 16}],
         "accept": r"lock:|deadlock|livelock|crash",
         "deadline": {"quick": 240, "thorough": 1500},
-        "rule": E1_RULE + "; a deadlock is reported when no thread is enabled and 8 forced retry rounds of every stuck thread "
+        "rule": E1_RULE + "; programs: structural writers with and without an optimistic reader (get / full scan), and a forward cursor "
+                "(iscan) next to every writer operation and to two-operation writers incl. a double root replacement above the cursor; "
+                "a deadlock is reported when no thread is enabled and 8 forced retry rounds of every stuck thread "
                 "complete no write; a livelock when one execution exceeds the point horizon",
         "assumptions": SC_ASSUME + ["fairness: a spinning thread yields; schedules that run a spinner forever are excluded"],
     },
